@@ -448,7 +448,35 @@ class C01:
                         f"{O.name}.{'/'.join(wrong)}", rret.lineno,
                         witness={"written_to": G, "read_from": back})
             else:
-                ctx.ok("R01.2", rsite, f"{D.name}.{f} <-> {O.name}.{'/'.join(G)}")
+                # a document value that is PRESENT must not be read back as None: the reader's own presence tests are decided with
+                # the field present (truthy, not None)
+                rt_ = rk[f][2] if rk[f][0] == "from_super" else rk[f]
+                lost = None
+                for g_ in back:
+                    da_ = ("attr", robj, g_)
+                    if not any(x[0] == "ite" for x in walk(rt_)):
+                        continue
+                    from sa.peval import peval as _pe
+                    env_ = {da_: True, ("cmp", "is", da_, NONE): False, ("cmp", "isnot", da_, NONE): True, ("not", da_): False}
+                    res_ = _pe(subst(rt_, {("cmp", "is", da_, NONE): FALSE, ("cmp", "isnot", da_, NONE): TRUE}), {("not", da_): False})
+                    # only the conditions are decided; the value positions keep the attribute
+                    def decide(t_):
+                        if t_[0] == "ite":
+                            c_ = t_[1]
+                            v_ = True if c_ == da_ else (False if c_ == ("not", da_) else (True if c_ == TRUE else (False if c_ == FALSE else None)))
+                            if v_ is True:
+                                return decide(t_[2])
+                            if v_ is False:
+                                return decide(t_[3])
+                        return t_
+                    if decide(res_) == NONE:
+                        lost = g_
+                if lost is not None:
+                    ctx.bad("R01.2", rowner.module.relpath, f"{rowner.name}.{rmeth}", f"{D.name}({f}=... None when {O.name}.{lost} is present)",
+                            f"the reader gives {D.name}.{f} = None exactly when the document field {O.name}.{lost} IS present "
+                            f"(`{show(rt_)[:90]}`): the stored value is never read back", rret.lineno, witness={"document_field": lost})
+                else:
+                    ctx.ok("R01.2", rsite, f"{D.name}.{f} <-> {O.name}.{'/'.join(G)}")
         # R01.8 a field copied as it is must have a document field of the same declared type (no narrowing codec)
         if only is None or True:
             for g, v in wk.items():
@@ -564,6 +592,16 @@ class C01:
 
         # classify the keep-condition
         if keep[0] == "cmp" and keep[1] == "isnot" and keep[3] == NONE:
+            # the value that is tested is the value that is written (or the field it is computed from): a test on another field
+            # drops this one whenever that other field is absent
+            in_val = {x[2] for x in walk(val) if x[0] == "attr" and x[1] == ty.obj}
+            own = any(x == keep[2] for x in walk(val)) or not in_val or (keep[2][0] == "attr" and keep[2][1] == ty.obj and keep[2][2] in in_val)
+            if not own and keep[2][0] == "attr" and keep[2][1] == ty.obj and keep[2][2] in Df:
+                ctx.bad("R01.3", wfile, wfunc, f"{O.name}({g}=... if {show(keep)[:50]} else None)",
+                        f"{O.name}.{g} is written only when `{show(keep)[:60]}` -- a test on another field than the one it stores "
+                        f"({', '.join(sorted(in_val)) or '?'}): an object with {', '.join(sorted(in_val)) or g} set and {keep[2][2]} absent loses it on save", wret.lineno,
+                        witness={"document_field": g, "stored_from": sorted(in_val), "tested": show(keep[2])})
+                return
             ctx.ok("R01.3", site, f"{O.name}.{g}: None passes through (is not None test)")
             r = reader_under_none()
             if r is not None and r[0] == "error":
